@@ -625,7 +625,18 @@ def _task_ANS(version, metrics_subset=None):
         for v in legal:
             ok = False
             for p in paths:
-                if p.outcome[0] == "break" and p.vector == [metric + ":" + v]:
+                if p.outcome[0] != "break" or len(p.vector) != 1:
+                    continue
+                rec = p.vector[0]
+                if isinstance(rec, S.SStr):
+                    # recorded value is a term (e.g. sliced out of the prompt): selectable if the
+                    # path can record exactly metric:v
+                    res, model, _ = lem.dec.check(lem.assume + p.pc + [rec.z == z3.StringVal(metric + ":" + v)], "string-feasibility")
+                    if res == "sat":
+                        ok = True
+                        break
+                    continue
+                if rec == metric + ":" + v:
                     res, model = lem.is_feasible(p)
                     if res == "sat":
                         ok = True
